@@ -612,6 +612,72 @@ func vfScenarios() []*vfScenario {
 				finals: []vfFinal{{cache.CAS, A.hash}, {cache.CAS, B.hash}, {cache.CAS, C.hash}, {cache.CAS, D.hash}}})
 		}
 
+		// C10: FindMissing over 25 digests (two internal batches) while two of
+		// them are being uploaded.
+		{
+			var fm []vfBlob
+			for i := 0; i < 25; i++ {
+				fm = append(fm, vfMkBlob(fmt.Sprintf("fm%d", i), 100+i, true))
+			}
+			out = append(out, &vfScenario{name: "S9-findmissing-vs-puts/" + mode, mode: mode, maxSize: 1 << 20,
+				setup: func(e *vfEnv) {
+					for i, b := range fm {
+						if i == 3 || i == 22 || i == 10 || i == 24 {
+							continue
+						}
+						e.put("SETUP", cache.CAS, b.hash, b.data)
+						e.legal("cas/"+b.hash, b.data)
+					}
+				},
+				threads: []func(*vfEnv, string){
+					func(e *vfEnv, th string) { e.findMissing(th, fm, nil) },
+					putCAS(fm[3]),
+					putCAS(fm[22]),
+				},
+				oracle: func(e *vfEnv) {
+					for _, op := range e.hist {
+						if op.Op != "findmissing" {
+							continue
+						}
+						if op.err != nil {
+							e.violate("C10 findmissing failed", "FindMissing failed: %v", op.err)
+							continue
+						}
+						got := strings.Split(op.Arg, ",")
+						if op.Arg == "" {
+							got = nil
+						}
+						idx := map[string]int{}
+						for i, b := range fm {
+							idx[b.hash[:6]] = i
+						}
+						last := -1
+						seen := map[int]bool{}
+						for _, g := range got {
+							i, ok := idx[g]
+							if !ok {
+								e.violate("C10 unknown digest reported", "FindMissing reported a digest that was not requested: %s", g)
+								continue
+							}
+							if i <= last {
+								e.violate("C10 order not preserved", "missing digests not in request order: %v", got)
+							}
+							last = i
+							seen[i] = true
+							if i != 3 && i != 22 && i != 10 && i != 24 {
+								e.violate("C10 present blob reported missing", "blob #%d was present throughout the call but is reported missing (%v)", i, got)
+							}
+						}
+						for _, i := range []int{10, 24} {
+							if !seen[i] {
+								e.violate("C10 absent blob reported present", "blob #%d was absent throughout the call but is not reported missing (%v)", i, got)
+							}
+						}
+					}
+				},
+				finals: []vfFinal{{cache.CAS, fm[3].hash}, {cache.CAS, fm[22].hash}, {cache.CAS, fm[0].hash}}})
+		}
+
 		out = append(out, &vfScenario{name: "S10-contains-vs-overwrite/" + mode, mode: mode, maxSize: 1 << 20,
 			setup: func(e *vfEnv) {
 				e.put("SETUP", cache.CAS, A.hash, A.data)
@@ -648,6 +714,9 @@ func TestVfE1(t *testing.T) {
 	var hot []string
 	for _, f := range sc.finals {
 		hot = append(hot, f.hash)
+	}
+	if strings.HasPrefix(sc.name, "S9-") {
+		hot = nil // many keys: list every directory
 	}
 	VfSetHot(hot...)
 	vfCleanDir(dir)
